@@ -8,7 +8,7 @@ From Ruler Require Import Bytes AList RuleSyntax World Work Build Ops Inv InvFac
 Local Notation steps teqb hc := (clos_refl_trans _ (step teqb hc)).
 
 (* the invariant holds of the empty world (the clock starts above 0) ... *)
-Theorem C07_init : forall t0, 0 < t0 -> disk_inv sym_eqb SContent (init_world Fine t0).
+Theorem C07_init : forall t0, disk_inv sym_eqb SContent (init_world Fine t0).
 Proof. exact c07_init_sym. Qed.
 
 (* ... and is preserved by every primitive action on shared state, whoever performs it and in whatever
@@ -47,7 +47,7 @@ Proof. exact clean_steps_sym. Qed.
    builds, goal builds, cleans, tampering, deletions, deleted cache entries / ruler directory; only a
    user planting *decodable* state files is excluded) the cache is content-addressed *)
 Theorem C07_every_history : forall t0 (ops : list (op sym)),
-  0 < t0 -> Forall (safe_op sym) ops ->
+  Forall (safe_op sym) ops ->
   cache_addressed sym_eqb SContent
     (fold_left (fun w o => fst (apply_op sym_eqb SContent SList SRule w o)) ops (init_world Fine t0)).
 Proof. exact c07_every_history_sym. Qed.
@@ -57,7 +57,7 @@ Proof. exact c07_every_history_sym. Qed.
 Theorem C07_every_history_any_hash :
   forall (T : Type) (teqb : T -> T -> bool) (hc : bytes -> T) (hl : list T -> T) (hr : rule -> T),
     (forall a b, teqb a b = true <-> a = b) ->
-    forall t0 (ops : list (op T)), 0 < t0 -> Forall (safe_op T) ops ->
+    forall t0 (ops : list (op T)), Forall (safe_op T) ops ->
       cache_addressed teqb hc (fold_left (fun w o => fst (apply_op teqb hc hl hr w o)) ops (init_world Fine t0)).
 Proof. intros T teqb hc hl hr Hspec. exact (c07_every_history T teqb hc Hspec hl hr). Qed.
 
@@ -73,10 +73,10 @@ Proof. exact c07_restore_content_sym. Qed.
    holds after every history of the C01 alphabet whose builds run commands confined to their targets. (For kills
    under the coarse clock see C11 and suite crash_coarse: defect F6, repaired.) *)
 Theorem C07_every_history_any_clock : forall mode t0 (ops : list (op sym)),
-  0 < t0 -> confined_history sym sym_eqb SContent SList SRule (init_world mode t0) ops ->
+  confined_history sym sym_eqb SContent SList SRule (init_world mode t0) ops ->
   cache_addressed sym_eqb SContent
     (fold_left (fun w o => fst (apply_op sym_eqb SContent SList SRule w o)) ops (init_world mode t0)).
-Proof. intros mode t0 ops H0 Hc. exact (proj1 (coarse_inv_every_history_sym mode t0 ops H0 Hc)). Qed.
+Proof. intros mode t0 ops Hc. exact (proj1 (coarse_inv_every_history_sym mode t0 ops Hc)). Qed.
 
 Check C07_cache_content_addressed.
 Check C07_every_history.
@@ -107,3 +107,22 @@ Theorem C07_user_mv_keeps_invariant : forall (w : world sym) p q,
   disk_inv sym_eqb SContent w -> disk_inv sym_eqb SContent (move_file w p q).
 Proof. exact mv_keeps_disk_inv_sym. Qed.
 Print Assumptions C07_user_mv_keeps_invariant.
+
+(* ---- ANY clock, at every crash point (round 4; Proofs/CoarseCrashFacts.v): the cache is content-addressed at every
+   prefix of the actions of a build or clean started from the per-path invariant of C18 ---- *)
+From Ruler Require Import Inv Ideal BuildSpec InvFacts C01Hist C01Facts C11Facts C02Sym Acts Sched Fine FineFacts C18Facts CoarseInv CoarseBuild C18CoarseFacts CoarseCrash CoarseCrashFacts CoarseCrashFine EpochFacts.
+Local Open Scope nat_scope.
+
+Theorem C07_any_clock_every_crash_point_of_a_build : forall (w : world sym) goal pre suf,
+  coarse_inv_sym w -> build_confined sym w goal ->
+  build_acts_sym w RULES_PATH goal = pre ++ suf ->
+  cache_addressed sym_eqb SContent (run_acts_sym pre w).
+Proof. exact coarse_crash_cache_addressed_sym. Qed.
+Print Assumptions C07_any_clock_every_crash_point_of_a_build.
+
+Theorem C07_any_clock_every_crash_point_of_a_clean : forall (w : world sym) goal pre suf,
+  coarse_inv_sym w ->
+  clean_acts_sym w RULES_PATH goal = pre ++ suf ->
+  cache_addressed sym_eqb SContent (run_acts_sym pre w).
+Proof. exact coarse_clean_crash_cache_addressed_sym. Qed.
+Print Assumptions C07_any_clock_every_crash_point_of_a_clean.
